@@ -53,7 +53,17 @@ class EmptyGroup(BaseException):
         return 0
 
 
-EXC = {"FalsyFailure": FalsyFailure, "EmptyGroup": EmptyGroup, "Failure": Failure, "BaseFailure": BaseFailure, "ValueError": ValueError, "KeyboardInterrupt": KeyboardInterrupt,
+def NestedCallError(msg):
+    """what a call raises when it runs a sub-plan with uberjob.run and that fails: a CallError (of the inner plan) with a
+    cause of its own - the outer run must report THIS object as the cause, not look through it"""
+    import uberjob
+    inner = uberjob.Plan()
+    e = uberjob.CallError(inner.call(len, msg))
+    e.__cause__ = ValueError("inner: " + msg)
+    return e
+
+
+EXC = {"NestedCallError": NestedCallError, "FalsyFailure": FalsyFailure, "EmptyGroup": EmptyGroup, "Failure": Failure, "BaseFailure": BaseFailure, "ValueError": ValueError, "KeyboardInterrupt": KeyboardInterrupt,
        "SystemExit": SystemExit}
 
 
@@ -80,7 +90,10 @@ def gen_spec(rng, nmax=8, p_lit=0.2, p_dep=0.25, p_kw=0.3, cyclic=False):
     for i in range(n):
         scope = [rng.choice(["a", "b", 1, 2])] if rng.random() < 0.3 else []
         if i > 0 and rng.random() < p_lit:
-            nodes.append({"id": i, "kind": "lit", "scope": scope})
+            nd_lit = {"id": i, "kind": "lit", "scope": scope}
+            if rng.random() < 0.5:
+                nd_lit["value"] = rng.choice([0, 1, 2, "x", None, True])      # the kind of constant calls also get as arguments
+            nodes.append(nd_lit)
             continue
         args, kwargs = [], []
         for _ in range(rng.choice([0, 1, 1, 2, 3])):
@@ -97,7 +110,7 @@ def gen_spec(rng, nmax=8, p_lit=0.2, p_dep=0.25, p_kw=0.3, cyclic=False):
                     else:
                         ref = {kind: [ref, other]}
             else:
-                ref = {"v": rng.randrange(100)}
+                ref = {"v": rng.choice([0, 1, 2, "x", None, True]) if rng.random() < 0.4 else rng.randrange(100)}
             if rng.random() < p_kw:
                 kwargs.append(["k%d" % len(kwargs), ref])
             else:
@@ -237,7 +250,7 @@ def build(spec, rec, failing=None):
         i = nd["id"]
         with plan.scope(*nd.get("scope", [])):
             if nd["kind"] == "lit":
-                N[i] = plan.lit(("lit", i))
+                N[i] = plan.lit(nd["value"] if "value" in nd else ("lit", i))
             else:
                 fn = make_fn(i, rec, failing, raised)
                 N[i] = plan.call(fn, *[val(r) for r in nd["args"]], **{k: val(r) for k, r in nd["kwargs"]})
